@@ -47,6 +47,15 @@ def scenarios(tier, seed=0):
             for ck in (("maize.2",) if tier == "quick" else ("maize.2", "cotton.2", "potato.2")):
                 c = A._b(crop=ck, word=word, win="w2", soil="SandyLoam", iwc="Pct50", cropopt=opt)
                 yield {"kind": "config", "config": c}
+    # (b2') crops with unusual built-in parameters on the fields they are grown on: paddy rice (placeholder aeration lag 1e10, transplanted)
+    # on a bunded, ponded paddy soil; the full-year crops
+    for ck, soil, field, irr, word in (("rice.2", "Paddy", "bunds200", "const40e40", "showers"), ("rice.2", "Clay", "bunds50w20", "none", "wet"), ("rice.2", "Paddy", "bunds_mulch", "int3", "mix")):
+        for off in (False, True):
+            c = A._b(crop=ck, word=word, win="w2", soil=soil, field=field, irr=irr, iwc="SAT", off=off)
+            yield {"kind": "config", "config": c}
+    for name in ("PaddyRice", "localpaddy") if tier != "quick" else ("PaddyRice",):
+        spec = A.catalogue_spec(name, word="wet", soil="Paddy", field="bunds200", iwc="SAT", irr="smt")
+        yield {"kind": "spec", "spec": spec, "label": ["paddy-full-length", name]}
     # (b3) extreme records on simulated days (reference ET below the 0.1 mm floor of the file reader, frost, a tropical night, a storm):
     # a per-day "sanity" adjustment may not be written back into the stored records
     for off in (False, True):
